@@ -76,11 +76,14 @@ fill(IMB_JOB *j, int kind, int slot, int session)
                 imb_set_session(m, j);
 }
 
+static int c14_mode;
 static void
 viol(const char *site, const char *detail, long a, long b)
 {
         char sig[160];
-        snprintf(sig, sizeof sig, "C05|%s|%s|%s", site, VARIANTS[g_v].name, g_api);
+        if (c14_mode && strcmp(site, "errno") && strcmp(site, "descriptor") && strcmp(site, "status") && strcmp(site, "burst-size"))
+                return; /* C14 run: only status / error-code / descriptor invariants (the rest is C05's) */
+        snprintf(sig, sizeof sig, "%s|%s|%s|%s", g_property, site, VARIANTS[g_v].name, g_api);
         if (!rec_sig_ok(sig, 3))
                 return;
         rec_begin("viol");
@@ -139,6 +142,8 @@ post_invariants(void)
         if (q != (uint32_t) R.count)
                 viol("queue-size", "queue_size != submitted - handed back", q, R.count);
         IMB_JOB *n = X_GET_NEXT(m);
+        if (imb_get_errno(m) != 0)
+                viol("errno", "get_next_job left a non-zero error code", imb_get_errno(m), 0);
         int slot = (int) (n - m->jobs);
         if (slot < 0 || slot >= RING)
                 viol("next-slot-range", "get_next_job outside the ring", slot, 0);
@@ -173,6 +178,8 @@ static void
 op_flush(void)
 {
         IMB_JOB *r = X_FLUSH(m);
+        if (imb_get_errno(m) != 0)
+                viol("errno", "flush_job left a non-zero error code", imb_get_errno(m), 0);
         if ((r == NULL) != (R.count == 0))
                 viol("flush-null", "flush NULL <=> queue empty violated", r != NULL, R.count);
         if (r)
@@ -183,6 +190,8 @@ op_get_completed(void)
 {
         int head_final = R.count && m->jobs[R.slot[0]].status >= IMB_STATUS_COMPLETED;
         IMB_JOB *r = X_GET_COMPLETED(m);
+        if (imb_get_errno(m) != 0)
+                viol("errno", "get_completed_job left a non-zero error code", imb_get_errno(m), 0);
         if (!r && head_final)
                 viol("get-completed-missed", "oldest job is final but get_completed_job returned NULL", 0, 0);
         if (r && !head_final)
@@ -267,6 +276,8 @@ op_flush_burst(int mx)
 {
         IMB_JOB *jobs[RING + 8];
         uint32_t r = X_FLUSH_BURST(m, mx, jobs);
+        if (imb_get_errno(m) != 0)
+                viol("errno", "flush_burst left a non-zero error code", imb_get_errno(m), 0);
         uint32_t exp = (uint32_t) (R.count < mx ? R.count : mx);
         if (r != exp)
                 viol("flush-burst-count", "flush_burst returned wrong number of jobs", r, exp);
@@ -592,7 +603,8 @@ seed_crash(long si, int sig, void *arg)
 int
 main(int argc, char **argv)
 {
-        rec_init("C05", getenv("VERIF_TIER") ? getenv("VERIF_TIER") : "quick");
+        c14_mode = argc > 4 && !strcmp(argv[4], "C14");
+        rec_init(c14_mode ? "C14" : "C05", getenv("VERIF_TIER") ? getenv("VERIF_TIER") : "quick");
         g_api = argc > 1 ? argv[1] : "job";
         is_burst = !strcmp(g_api, "burst");
         const char *vsel = argc > 2 ? argv[2] : "all";
@@ -624,6 +636,7 @@ main(int argc, char **argv)
                 memset(&B, 0, sizeof B);
                 memset(&R, 0, sizeof R);
                 if (RING <= 16) {
+                        const int small_alpha = !strchr(kinds, 'P') && !strchr(kinds, 'C');
                         bfs_model M = { .snap_size = sz_mgr + sz_h + sz_a + sizeof B + sizeof R,
                                         .save = save,
                                         .restore = restore,
@@ -633,8 +646,8 @@ main(int argc, char **argv)
                                         .opname = opname,
                                         .maxdepth = -1,
                                         .nworkers = n_workers(),
-                                        .max_states = getenv("VERIF_BFS_STATES") ? strtoul(getenv("VERIF_BFS_STATES"), 0, 0) : (RING <= 4 ? (1u << 23) : (1u << 26)),
-                                        .max_frontier = getenv("VERIF_BFS_FRONTIER") ? strtoul(getenv("VERIF_BFS_FRONTIER"), 0, 0) : (RING <= 4 ? (1u << 20) : (1u << 21)),
+                                        .max_states = getenv("VERIF_BFS_STATES") ? strtoul(getenv("VERIF_BFS_STATES"), 0, 0) : (RING <= 4 ? (small_alpha ? (1u << 21) : (1u << 23)) : (1u << 26)),
+                                        .max_frontier = getenv("VERIF_BFS_FRONTIER") ? strtoul(getenv("VERIF_BFS_FRONTIER"), 0, 0) : (RING <= 4 ? (small_alpha ? (1u << 19) : (1u << 20)) : (1u << 21)),
                                         .selfcheck_n = 2000 };
                         bfs_result r;
                         bfs_run(&M, &r);
